@@ -107,10 +107,10 @@ class RTDCBase(abc.ABC):
             ct = True
         else:
             # Check ancillary features data
-            if feat in self._ancillaries:
-                # already computed
-                ct = True
-            elif feat in AncillaryFeature.feature_names:
+            # (Do not rely on `self._ancillaries`: A feature that has been
+            # computed before might not be available anymore if e.g. the
+            # configuration changed.)
+            if feat in AncillaryFeature.feature_names:
                 # get all instance of AncillaryFeature that
                 # check availability of the feature `feat`
                 instlist = AncillaryFeature.get_instances(feat)
